@@ -52,7 +52,10 @@ PROP = {
     "partial": "All theorems of the design are proved in full for the allocator model and for the checker (27 theorems, no partial statement). "
                "Not proved, by design: that the B+tree code produces the page graphs it produces (validated by judging the dump after every "
                "statement), and that `dump_file` reads the file faithfully (trusted facade). `dealloc_page` of a page id outside the file is "
-               "outside the model (malformed case).",
+               "outside the model (malformed case). On this tree the property fails in one region (findings KF-C11-fixup-drains-page-panic / "
+               "-empty-leaf, DESIGN §0): the underflow fix-up of compute_best_cell_distribution can drain a page when overflow rows and small "
+               "rows meet on 8 KiB pages (worker panic that empties the table, or an empty leaf behind a separator); reached by the thorough "
+               "tier's SQL histories and by two corpus witnesses that run first in every tier.",
     "trusted": [
         "facade crates/axmos-db/src/verif/pager.rs (raw pager driver, catalog roots) and verif/btree.rs (page parser, chain walk)",
         "Lean driver AxVerif/Driver/Pager.lean: parsing of observations and the page table kept across the deltas of one history",
